@@ -236,8 +236,13 @@ def cubic_spline(
         a = inputs_b[quadratic_mask]
         b = inputs_c[quadratic_mask]
         c = inputs_d[quadratic_mask] - inputs[quadratic_mask]
-        alpha = (-b + torch.sqrt(b.pow(2) - 4 * a * c)) / (2 * a)
+        # Numerically stable form of (-b + sqrt(b^2 - 4ac)) / 2a: finite for a -> 0 (linear segment).
+        alpha = (2 * c) / (-b - torch.sqrt(b.pow(2) - 4 * a * c))
         outputs[quadratic_mask] = alpha + input_left_cumwidths[quadratic_mask]
+
+        # The solution lies in the bin that contains the input; rounding must not move it outside.
+        outputs = torch.max(outputs, input_left_cumwidths)
+        outputs = torch.min(outputs, input_right_cumwidths)
 
         shifted_outputs = outputs - input_left_cumwidths
         logabsdet = -torch.log(
@@ -255,6 +260,7 @@ def cubic_spline(
             + inputs_c * shifted_inputs
             + inputs_d
         )
+        outputs = torch.clamp(outputs, 0, 1)
 
         logabsdet = torch.log(
             (
